@@ -1002,3 +1002,62 @@ pub fn n_of(s: &str) -> N {
 pub fn typed_array_name(i: usize) -> &'static str {
     TYPED_ARRAYS[i % 11]
 }
+
+
+// ------------------------------------------------------------------------------------------------
+// C06 layer 1: decision diagrams built with the engine's own BddOps, judged against a truth table
+// ------------------------------------------------------------------------------------------------
+use crate::csem::BExpr;
+use beff_core::subtyping::bdd::BddOps;
+use beff_core::subtyping::dnf::{bdd_to_dnf, dnf_to_bdd};
+
+fn build_bexpr(e: &BExpr) -> Rc<Bdd> {
+    match e {
+        BExpr::Atom(i) => Rc::new(Bdd::from_atom(Atom::Mapping(*i))),
+        BExpr::True => Rc::new(Bdd::True),
+        BExpr::False => Rc::new(Bdd::False),
+        BExpr::Union(a, b) => build_bexpr(a).union(&build_bexpr(b)),
+        BExpr::Inter(a, b) => build_bexpr(a).intersect(&build_bexpr(b)),
+        BExpr::Diff(a, b) => build_bexpr(a).diff(&build_bexpr(b)),
+        BExpr::Compl(a) => build_bexpr(a).complement(),
+    }
+}
+
+fn eval_bdd(b: &Bdd, assignment: u32) -> bool {
+    match b {
+        Bdd::True => true,
+        Bdd::False => false,
+        Bdd::Node { atom, left, middle, right } => {
+            let i = match atom {
+                Atom::Mapping(i) | Atom::List(i) | Atom::Map(i) | Atom::Set(i) => *i,
+            };
+            let a = assignment & (1 << i) != 0;
+            (a && eval_bdd(left, assignment)) || eval_bdd(middle, assignment) || (!a && eval_bdd(right, assignment))
+        }
+    }
+}
+
+
+/// returns a description of the first disagreement
+pub fn check_bexpr(e: &BExpr, natoms: usize) -> Option<(String, u32)> {
+    let bdd = build_bexpr(e);
+    let dnf = bdd_to_dnf(&bdd);
+    let back = dnf_to_bdd(&dnf);
+    for asg in 0..(1u32 << natoms) {
+        let want = e.eval(asg);
+        if eval_bdd(&bdd, asg) != want {
+            return Some(("bdd_ops".into(), asg));
+        }
+        let dnf_val = dnf.iter().any(|c| {
+            c.positive.iter().all(|a| eval_bdd(&Bdd::from_atom(*a), asg)) && c.negative.iter().all(|a| !eval_bdd(&Bdd::from_atom(*a), asg))
+        });
+        if dnf_val != want {
+            return Some(("bdd_to_dnf".into(), asg));
+        }
+        if eval_bdd(&back, asg) != want {
+            return Some(("dnf_to_bdd".into(), asg));
+        }
+    }
+    None
+}
+
